@@ -119,6 +119,38 @@ pub fn run(f: &[&str]) -> String {
             if e2.to_string() != full || e2.line() != e.line() || e2.column() != e.column() { return "SER-DE-CUSTOM-DIFFER".into(); }
             format!("{} {} {}", e.line(), e.column(), if kept.is_empty() { "-".to_string() } else { hex(kept.as_bytes()) })
         }
+        // dq <src b|s|r> <types> <hex text>: ONE Deserializer over the text, read step by step with the target type of each letter of <types>
+        //   v Value  s String  d f64  f f32  u u8  b bool  i IgnoredAny  n ()        a failing step is swallowed and the next one continues
+        //   -> per step `ok:<canonical>` | `err:<Code>` joined by ','   (state isolation: what a step yields must not depend on the TYPES asked before)
+        "dq" if f.len() == 4 => {
+            let data = match unhex(f[3]) { Some(d) => d, None => return "BADCASE".into() };
+            fn drive<'de, R: serde_json::de::Read<'de>>(mut de: serde_json::Deserializer<R>, types: &str) -> String {
+                use serde::de::IgnoredAny;
+                let mut out = vec![];
+                for t in types.chars() {
+                    let r: Result<String, serde_json::Error> = match t {
+                        'v' => Value::deserialize(&mut de).map(|v| show_value(&v)),
+                        's' => String::deserialize(&mut de).map(|v| format!("s{}", hex(v.as_bytes()))),
+                        'd' => f64::deserialize(&mut de).map(|v| format!("d{:016x}", v.to_bits())),
+                        'f' => f32::deserialize(&mut de).map(|v| format!("f{:08x}", v.to_bits())),
+                        'u' => u8::deserialize(&mut de).map(|v| format!("u{}", v)),
+                        'b' => bool::deserialize(&mut de).map(|v| format!("b{}", v)),
+                        'i' => IgnoredAny::deserialize(&mut de).map(|_| "i".to_string()),
+                        'n' => <()>::deserialize(&mut de).map(|_| "n".to_string()),
+                        _ => return "BADCASE".into(),
+                    };
+                    out.push(match r { Ok(s) => format!("ok:{}", s), Err(e) => format!("err:{}", code_name(&e)) });
+                }
+                out.join(",")
+            }
+            if f[1].starts_with('s') {
+                match std::str::from_utf8(&data) { Ok(t) => drive(serde_json::Deserializer::from_str(t), f[2]), Err(_) => "SKIP".into() }
+            } else if f[1].starts_with('b') {
+                drive(serde_json::Deserializer::from_slice(&data), f[2])
+            } else {
+                drive(serde_json::Deserializer::from_reader(ChunkReader::new(&data, 1)), f[2])
+            }
+        }
         _ => "BADCASE".into(),
     }
 }
